@@ -544,6 +544,10 @@ pub fn inv_opt(c: &C, bound: usize, sizes: bool) {
         let mut sum = 0usize;
         let mut p = c.seal.get().prev; // LRU
         while p != c.seal {
+            if p.is_null() {
+                vassert!([C04, C05, C06, C07, C12, C14, C17, C19], false, "I1: a link of the recency list is null");
+                break;
+            }
             if cnt >= bound {
                 vassert!([C04, C05, C06, C07, C12, C14, C17], false, "I1: list longer than len() allows");
                 break;
@@ -564,7 +568,7 @@ pub fn inv_opt(c: &C, bound: usize, sizes: bool) {
                     "[C04 C07 C14 C17 ] I2: a traversed entry is not the entry a lookup of its key finds",
                 );
             });
-            vassert!([C05, C06, C07, C12, C14, C17], e.prev.get().next == p && e.next.get().prev == p, "I1: forward and backward links do not mirror");
+            vassert!([C05, C06, C07, C12, C14, C17], !e.prev.is_null() && !e.next.is_null() && e.prev.get().next == p && e.next.get().prev == p, "I1: forward and backward links do not mirror");
             sum = sum.wrapping_add(e.size);
             cnt += 1;
             p = e.prev;
@@ -624,7 +628,7 @@ pub fn raw_words(c: &C) -> [u64; 10] {
     w
 }
 pub fn fp(c: &C, bound: usize) -> Fp {
-    let a = |p: EntryPtr<Key, Val>| p.get() as *const E;
+    let a = |p: EntryPtr<Key, Val>| if p.is_null() { std::ptr::null() } else { p.get() as *const E };
     let mut f = Fp {
         nodes: [(std::ptr::null(), std::ptr::null(), std::ptr::null(), 0, 0, 0, 0, 0); NMAX + 1],
         bound,
@@ -640,6 +644,12 @@ pub fn fp(c: &C, bound: usize) -> Fp {
     };
     let mut p = c.seal.get().prev;
     while p != c.seal && f.n < bound {
+        if p.is_null() {
+            // a null link: recorded as such (the comparison with an intact fingerprint then differs)
+            f.nodes[f.n] = (std::ptr::null(), std::ptr::null(), std::ptr::null(), usize::MAX, 0xff, 0xff, 0xff, usize::MAX);
+            f.n += 1;
+            break;
+        }
         let e = p.get();
         let k = unsafe { e.key() };
         let v = unsafe { e.value() };
